@@ -345,6 +345,45 @@ def audit_registry():
 UNIVERSE = ["lat", "b", "time"]   # multi-character names: a bare-string request must not be split into characters
 
 
+RETYPE_DOMAINS = ("real", "pos", "angle", "binary")
+
+
+def retype_case(rng, e: "Entry", case: "Case", store=None):
+    """STORAGE DTYPE class: the same labelled VALUES stored as int64 / int32 (integral values only) or float32 (values
+    exactly representable).  Returns (new case, dtype name) or (None, None) when the entry's inputs cannot be stored
+    that way (NaN present, fractional values for an integer dtype, domains such as CDF ordinates).  Weights keep
+    float64 storage: they are the caller's multiplier, typically fractional."""
+    import copy
+    store = store or rng.choice(["int64", "int32", "float32"])
+    new = {}
+    for arg, dom, role in e.inputs:
+        a = case.arrays[arg]
+        if a.dtype.kind != "f":
+            return None, None
+        if dom not in RETYPE_DOMAINS and role != "fcst2":
+            return None, None
+        v = np.asarray(a.values, dtype=float)
+        if np.isnan(v).any() or np.isinf(v).any():
+            return None, None
+        if store.startswith("int"):
+            v = np.round(v)                     # move to the nearest integers: a different but legal case
+        else:
+            if not np.array_equal(v.astype(np.float32).astype(float), v):
+                return None, None
+        new[arg] = a.copy(data=v.astype(store))
+    # fcst2 is built as fcst + positive offset: rounding keeps lower <= upper
+    c2 = copy.copy(case)
+    c2.arrays = new
+    return c2, store
+
+
+def as_float64(case: "Case"):
+    import copy
+    c2 = copy.copy(case)
+    c2.arrays = {k: v.astype(float) for k, v in case.arrays.items()}
+    return c2
+
+
 def gen_case(rng, e: Entry, data_dims=None, obs_dims=None, weights_dims=None, sizes=None, nan_p=0.0,
              with_weights=None, weight_nan_p=0.0, overlap=None):
     """labelled inputs for entry e.  data_dims: dims of fcst (score-specific dims are appended)."""
